@@ -86,9 +86,15 @@ class BeartypeValidatorBinaryABC(BeartypeValidator, metaclass=ABCMeta):
 
         # Callable accepting no arguments returning a machine-readable
         # representation of this binary validator.
+        #
+        # Note that the representations of compound (i.e., binary) operands are
+        # parenthesized. Omitting these parentheses would render the
+        # representations of semantically distinct validators identical (e.g.,
+        # "(A | B) & C" and "A | (B & C)" as "A | B & C").
         get_repr = lambda: (
-            f'{repr(validator_operand_1)} {self._operator_symbol} '
-            f'{repr(validator_operand_2)}'
+            f'{represent_operand(validator_operand_1)} '
+            f'{self._operator_symbol} '
+            f'{represent_operand(validator_operand_2)}'
         )
 
         # Initialize our superclass with all remaining parameters.
@@ -394,3 +400,22 @@ def _validate_operands(
             f'validator (i.e., "beartype.vale.Is*[...]" object).'
         )
     # Else, both of these operands are beartype validators.
+
+
+# ....................{ REPRESENTERS                       }....................
+def represent_operand(validator_operand: BeartypeValidator) -> str:
+    '''
+    Machine-readable representation of the passed validator as an operand of a
+    higher-level compound validator, parenthesized if this validator is itself a
+    binary validator (and thus ambiguous when embedded unparenthesized).
+    '''
+
+    # Unparenthesized representation of this operand.
+    operand_repr = repr(validator_operand)
+
+    # Return this representation, parenthesized only if this operand is binary.
+    return (
+        f'({operand_repr})'
+        if isinstance(validator_operand, BeartypeValidatorBinaryABC) else
+        operand_repr
+    )
